@@ -16,6 +16,26 @@ ASAN = {"build": "asan"}
 MEMCHECK = {"build": "plain", "name": "memcheck", "tiers": ("thorough",), "tier_override": "quick", "scale": 0.1, "workers": 16,
             "wrapper": ["valgrind", "--tool=memcheck", "--error-exitcode=99", "--quiet", "--undef-value-errors=yes", "--leak-check=no", "--num-callers=16"]}
 
+
+
+def FUZZ(runs, max_len, seeds, tokens=(), flags=()):
+    """thorough tier only: the same harness as a libFuzzer target (clang 14, ASan+UBSan): 16 processes on a shared corpus,
+    `runs` executions each (a count, not a time budget); every input goes through the harness's per-input monitors."""
+    return {"build": "fuzz", "name": "libfuzzer", "tiers": ("thorough",), "flags": list(flags),
+            "fuzz": {"runs": runs, "jobs": 16, "max_len": max_len, "seeds": list(seeds), "dict": list(tokens)}}
+
+
+_FZ_CONV_SEEDS = [b"\x00abc\xc3\xa9\xe2\x82\xac\xf0\x9f\x98\x80", b"\x00\xf4\x90\x80\x80\xed\xa0\x80\xc0\x80\xff", b"\x00abcdefghijklmnop\xe2\x82",
+                  b"\x01A\x00\x3d\xd8\x00\xde\xff\xff", b"\x01\x00\xdc\x00\xd8\x41\x00\x00\xd8", b"\x02A\x00\x00\x00\x00\xf6\x01\x00\x00\x00\x11\x00",
+                  b"\x02\x00\xd8\x00\x00\xff\xff\x10\x00\xff\xff\xff\xff"]
+_FZ_CONV_TOKENS = [b"\xc3\xa9", b"\xe2\x82\xac", b"\xf0\x9f\x98\x80", b"\xf4\x8f\xbf\xbf", b"\xf4\x90\x80\x80", b"\xed\xa0\x80", b"\xed\xbf\xbf", b"\xc0\x80", b"\xe0\x80\x80",
+                   b"\x00\xd8", b"\xff\xdb", b"\x00\xdc", b"\xff\xdf", b"\xff\xff\x10\x00", b"\x00\x00\x11\x00", b"\x00\xd8\x00\x00", b"\xff\x00\x00\x00", b"\x00\x01\x00\x00"]
+_FZ_FMT_SEEDS = [b"\x00\x01{} {}", b"\x01\x02id={>8} {<_*12.3} {&1x}", b"\x05\x03{{x}} {#08x} {+d} {c}", b"\x30\x04{.5f} {10.2e} {E}", b"\x31\x05{&2} {&1} {_ 6b} {#o}", b"\x02\x06{>5c}"]
+_FZ_FMT_TOKENS = [b"{", b"}", b"{{", b"}}", b"{}", b"{&1}", b"{&2}", b"{_*", b"{<", b"{>", b"{0", b"{#x}", b"{#X}", b"{+", b"{.3", b"{c}", b"{f}", b"{e}", b"{E}", b"{b}", b"{o}", b"{d}",
+                  b"4294967295", b"2147483648", b"-1", b"99999999999999999999", b"\x80", b"\xc3\xa9"]
+_FZ_CODEC_SEEDS = [b"\x0148656c6c6f", b"\x01DEADbeef00ff", b"\x00SGVsbG8=", b"\x00SGVsbA==", b"\x00AAAA////++++", b"\x00QUJD", b"\x01", b"\x00"]
+_FZ_CODEC_TOKENS = [b"=", b"==", b"AA==", b"AAA=", b"AAAA", b"/+", b"0f", b"F0", b"\x80", b"\xff", b"\x00"]
+
 PROPS = {}
 NOT_APPLICABLE = {}
 
@@ -96,6 +116,7 @@ P("C14", "hex and base64 encodings are standard and decode back to the original 
   dbits={"quick": 22, "thorough": 26})
 
 P("C15", "decoders accept exactly the valid encodings and never overrun the output buffer", "codec",
+  runs=[ASAN, FUZZ(1500000, 48, _FZ_CODEC_SEEDS, _FZ_CODEC_TOKENS)],
   level_text=("runtime monitoring: hex_decode/base64_decode (allocating, caller-buffer, null-output) run under ASan+UBSan and their accept/reject decision, returned length and bytes are "
               "compared with the validity predicate and reference decoder of the statement; the output buffer is a heap block of exactly output_size bytes (red zone behind it) filled with a "
               "canary so writes beyond output_size or beyond the returned length are observed; exhaustive over all 256^2 hex digit pairs, every byte value at every position of first/middle/last "
@@ -155,7 +176,8 @@ P("C01", "well-formed text transcodes losslessly and to the standard encoding", 
 P("C02", "validation modes accept, reject and repair malformed input correctly", "conv",
   runs=[{"build": "asan", "name": "default=check_validity", "flags": ["-DST_DEFAULT_VALIDATION=ST::check_validity", "-DVRT_EXPECT_DEFAULT=2"]},
         {"build": "asan", "name": "default=substitute_invalid", "flags": ["-DST_DEFAULT_VALIDATION=ST::substitute_invalid", "-DVRT_EXPECT_DEFAULT=1"]},
-        {"build": "asan", "name": "default=assume_valid", "flags": ["-DST_DEFAULT_VALIDATION=ST::assume_valid", "-DVRT_EXPECT_DEFAULT=0"]}],
+        {"build": "asan", "name": "default=assume_valid", "flags": ["-DST_DEFAULT_VALIDATION=ST::assume_valid", "-DVRT_EXPECT_DEFAULT=0"]},
+        FUZZ(400000, 48, _FZ_CONV_SEEDS, _FZ_CONV_TOKENS)],
   level_text=("runtime monitoring: malformed and tolerated-form inputs in each source encoding (exhaustive over short strings of a branch-covering alphabet, embedded in valid text of every width class, "
               "every truncation, seeded mutations) run through every reading conversion in all three modes under ASan+UBSan; throw/no-throw and the repaired units are compared with the reference decoder of the statement, "
               "repaired output is re-validated, and the build is repeated for the three ST_DEFAULT_VALIDATION settings with mode-less calls compared against the configured mode"),
@@ -168,7 +190,7 @@ P("C02", "validation modes accept, reject and repair malformed input correctly",
   dbits={"quick": 23, "thorough": 26})
 
 P("C03", "conversions are total and memory-safe on arbitrary input", "conv",
-  runs=[ASAN, MEMCHECK],
+  runs=[ASAN, MEMCHECK, FUZZ(400000, 96, _FZ_CONV_SEEDS, _FZ_CONV_TOKENS)],
   level_text=("runtime monitoring: arbitrary unit sequences (the C02 malformed sets, every truncation of valid text, pure garbage of length 0..64, lead-byte-dense tails, empty and (nullptr,0), inputs of 64 Ki..1 Mi units) "
               "are handed to every conversion in exact-size heap blocks without terminator under ASan+UBSan: a read past the input or a write past the result lands in a red zone, any abort/assertion/crash/hang/foreign exception "
               "is reported through the driver, and size(), the terminator and every unit of the result are compared with the reference transcoding under the same mode (so an unwritten unit shows as a mismatch)"),
@@ -196,6 +218,7 @@ P("C11", "formatted output equals the specified rendering of literals, fields an
   dbits={"quick": 23, "thorough": 26})
 
 P("C10", "the format-string parser is total and memory-safe on every format string", "fmtparse",
+  runs=[ASAN, FUZZ(600000, 40, _FZ_FMT_SEEDS, _FZ_FMT_TOKENS)],
   level_text=("runtime monitoring: ST::format (all four validation selectors) runs under ASan+UBSan on every string up to the stated length over the specifier alphabet, on valid fields cut at every "
               "position, on mutated format strings and on numbers that overflow or wrap when narrowed, each with argument lists of every supported type; format strings live in exact-size heap blocks so a read "
               "past the terminating NUL is an ASan report; the outcome monitor accepts only output / bad_format / out_of_range / invalid_argument(null) / unicode_error / the documented padded-character contract "
